@@ -169,7 +169,7 @@ theorem setMergeImports_eq (c : Config) :
 theorem setFnArgsLayout_eq (c : Config) :
     setFnArgsLayout c = setAlias "fn_args_layout" "fn_params_layout" id c := rfl
 theorem setHideParseErrors_eq (c : Config) :
-    setHideParseErrors c = setAlias "hide_parse_errors" "show_parse_errors" id c := rfl
+    setHideParseErrors c = setAlias "hide_parse_errors" "show_parse_errors" negBool c := rfl
 
 theorem getE_setAlias (old new : String) (f : Val → Val) (c : Config) (k : String) :
     getE (setAlias old new f c) k =
@@ -935,7 +935,7 @@ theorem local_setFnArgsLayout : Local ["fn_args_layout", "fn_params_layout"] set
   local_setAlias "fn_args_layout" "fn_params_layout" id
 theorem local_setHideParseErrors :
     Local ["hide_parse_errors", "show_parse_errors"] setHideParseErrors :=
-  local_setAlias "hide_parse_errors" "show_parse_errors" id
+  local_setAlias "hide_parse_errors" "show_parse_errors" negBool
 
 theorem applyMethod_cases (m : String) :
     applyMethod m = setHeuristics ∨ applyMethod m = setMergeImports ∨
@@ -1257,7 +1257,7 @@ theorem ov_comm (k1 k2 : String) (v1 v2 : Val) (hne : k1 ≠ k2) (h1 : k1 ≠ "m
         (dispatch_other _ (by decide)) k1 k2 a3 (this ▸ m2) hne v1 v2 c
     by_cases a4 : k1 ∈ pairHP
     · have : block k1 = pairHP := by simp [block, a1, a2, a3, a4]
-      exact pair_comm' pairHP _ _ id rfl (by decide)
+      exact pair_comm' pairHP _ _ negBool rfl (by decide)
         (fun c => by rw [dispatch_hide_parse_errors, setHideParseErrors_eq])
         (dispatch_other _ (by decide)) k1 k2 a4 (this ▸ m2) hne v1 v2 c
     · have : block k1 = [k1] := by simp [block, a1, a2, a3, a4]
@@ -1712,11 +1712,35 @@ theorem flagCalls_key_mem (o : CliOptions α) (call : Bool × String × Val)
     (h : call ∈ flagCalls o) : call.2.1 ∈ flagKeys :=
   (flagCalls_keys_sublist o).subset (List.mem_map.2 ⟨call, h, rfl⟩)
 
+/-- The generated flag says `max_width` first (breaks when the source goes back to the plain loop). -/
+theorem orderInline_eq (l : List (String × Val)) : orderInline l = maxWidthFirst l := by
+  unfold orderInline
+  have h : inlineMaxWidthFirst = true := by decide
+  simp only [h, if_true]
+
+theorem maxWidthFirst_perm (l : List (String × Val)) : (maxWidthFirst l).Perm l :=
+  List.filter_append_perm _ l
+
+theorem orderInline_perm (l : List (String × Val)) : (orderInline l).Perm l := by
+  rw [orderInline_eq]; exact maxWidthFirst_perm l
+
+theorem mem_orderInline (l : List (String × Val)) (kv : String × Val) :
+    kv ∈ orderInline l ↔ kv ∈ l := (orderInline_perm l).mem_iff
+
+theorem orderInline_keys_perm (l : List (String × Val)) :
+    ((orderInline l).map (·.1)).Perm (l.map (·.1)) := (orderInline_perm l).map _
+
+theorem orderInline_single (k : String) (v : Val) : orderInline [(k, v)] = [(k, v)] := by
+  rw [orderInline_eq]
+  unfold maxWidthFirst
+  by_cases h : (k == "max_width") = true <;> simp [List.filter, h]
+
 /-- `apply_to` never panics when every `--config` pair is well-typed. -/
 theorem applyTo_some (o : CliOptions α) (c : Config)
     (hv : ∀ kv ∈ o.inlineConfig, checkVal kv.1 kv.2 = true) : ∃ c', applyTo o c = some c' := by
   obtain ⟨c1, h1⟩ := applyFlagCalls_some (flagCalls o) c (flagCalls_valid o)
-  obtain ⟨c2, h2⟩ := applyInline_some o.inlineConfig c1 hv
+  obtain ⟨c2, h2⟩ := applyInline_some (orderInline o.inlineConfig) c1
+    (fun kv hkv => hv kv ((mem_orderInline _ kv).1 hkv))
   exact ⟨c2, by simp [applyTo, h1, bindO, h2]⟩
 
 theorem applyTo_inline_wins (o : CliOptions α) (c c' : Config) (h : applyTo o c = some c')
@@ -1728,7 +1752,8 @@ theorem applyTo_inline_wins (o : CliOptions α) (c c' : Config) (h : applyTo o c
   | none => simp [h1, bindO] at h
   | some c1 =>
     simp only [h1, bindO] at h
-    exact applyInline_mem _ c1 c' h k v hm hnd hw
+    exact applyInline_mem _ c1 c' h k v ((mem_orderInline _ _).2 hm)
+      ((orderInline_keys_perm _).nodup_iff.2 hnd) hw
 
 theorem applyTo_flag_wins (o : CliOptions α) (c c' : Config) (h : applyTo o c = some c')
     (cli : Bool) (k : String) (v : Val) (hm : (cli, k, v) ∈ flagCalls o)
@@ -1741,7 +1766,8 @@ theorem applyTo_flag_wins (o : CliOptions α) (c c' : Config) (h : applyTo o c =
     simp only [h1, bindO] at h
     have hfree := flagKeys_free k (flagCalls_key_mem o _ hm)
     have hp : Protected c1 k := ⟨hfree.1, fun hh => absurd hh hfree.2⟩
-    rw [applyInline_frame _ c1 c' h k hk hp]
+    rw [applyInline_frame _ c1 c' h k
+      (fun hh => hk ((orderInline_keys_perm _).mem_iff.1 hh)) hp]
     exact applyFlagCalls_mem _ c c1 h1 cli k v hm (flagCalls_keys_nodup o) hfree.1 hfree.2
 
 theorem flagCalls_default :
@@ -1772,7 +1798,7 @@ theorem applyTo_single (c : Config) (k : String) (v : Val) (hv : checkVal k v = 
       flagCalls ({} : CliOptions α) := rfl
   unfold applyTo
   rw [hf, applyFlagCalls_default]
-  simp only [bindO, applyInline]
+  simp only [orderInline_single, bindO, applyInline]
   cases h1 : overrideValue (fl0 c) k v with
   | none => simp [overrideValue, hv] at h1
   | some c1 => exact ⟨c1, rfl, overrideValue_equiv_ov _ _ _ _ h1⟩
@@ -2134,7 +2160,7 @@ theorem alias_file (parsed : List (String × Val)) (se : StyleEdition) :
       (getE c "show_parse_errors").val =
         match parsed.lookup "show_parse_errors" with
         | some g => g
-        | none => v) := by
+        | none => negBool v) := by
   have m1 : "merge_imports" ∈ optionNames ∧ "imports_granularity" ∈ optionNames ∧
       "fn_args_layout" ∈ optionNames ∧ "fn_params_layout" ∈ optionNames ∧
       "hide_parse_errors" ∈ optionNames ∧ "show_parse_errors" ∈ optionNames := by decide +kernel
@@ -2153,7 +2179,7 @@ theorem alias_file (parsed : List (String × Val)) (se : StyleEdition) :
       id v m1.2.2.1 m1.2.2.2.1 n1.2.2.1 n1.2.2.2.1 hv
       (fillFromParsedConfig ⟨true⟩ (defaultWithStyleEdition se) parsed) hch.2.1
   · exact fill_alias _ parsed (wasSet_default se) "hide_parse_errors" "show_parse_errors"
-      id v m1.2.2.2.2.1 m1.2.2.2.2.2 n1.2.2.2.2.1 n1.2.2.2.2.2 hv
+      negBool v m1.2.2.2.2.1 m1.2.2.2.2.2 n1.2.2.2.2.1 n1.2.2.2.2.2 hv
       (fillFromParsedConfig ⟨true⟩ (defaultWithStyleEdition se) parsed) hch.2.2
 
 /-! ## The API setter against `override_value` -/
@@ -2193,5 +2219,246 @@ theorem api_same_values (c : Config) (k : String) (v : Val) (hv : checkVal k v =
           or_false, not_or]
         exact ⟨⟨a1, ha⟩, a5⟩
       rw [dispatch_other k this, dispatch_other k this]; exact (hstore k').1
+
+end RF.Lemmas.Config
+
+/-! ## `apply_to` does not depend on the order of the `--config` pairs -/
+
+namespace RF.Lemmas.Config
+open RF.Config RF.Gen.Options
+
+theorem heurOK_setWasSetCli (c : Config) (k : String) (h : HeurOK c) :
+    HeurOK (setWasSetCli c k) := by
+  unfold HeurOK setWasSetCli
+  rw [getE_upd]
+  by_cases hk : "use_small_heuristics" = k
+  · subst hk
+    simp only [if_true]
+    exact h
+  · simp only [hk, if_false]; exact h
+
+theorem heurOK_configSet (c c' : Config) (k : String) (v : Val)
+    (h : configSet c k v = some c') (hi : HeurOK c) : HeurOK c' := by
+  unfold configSet at h
+  split at h
+  · next hv =>
+    cases h
+    exact (heurOK_dispatch _ _ _).2 (heurOK_store c k _ v (fun _ => rfl) hv hi)
+  · cases h
+
+theorem heurOK_configSetCli (c c' : Config) (k : String) (v : Val)
+    (h : configSetCli c k v = some c') (hi : HeurOK c) : HeurOK c' := by
+  unfold configSetCli at h
+  split at h
+  · next hv =>
+    cases h
+    exact (heurOK_dispatch _ _ _).2
+      (heurOK_setWasSetCli _ _ (heurOK_store c k _ v (fun _ => rfl) hv hi))
+  · cases h
+
+theorem heurOK_applyFlagCalls (calls : List (Bool × String × Val)) (c c' : Config)
+    (h : applyFlagCalls calls c = some c') (hi : HeurOK c) : HeurOK c' := by
+  induction calls generalizing c with
+  | nil => simp only [applyFlagCalls] at h; cases h; exact hi
+  | cons p r ih =>
+    obtain ⟨cli, k, v⟩ := p
+    simp only [applyFlagCalls] at h
+    cases h1 : (if cli then configSetCli c k v else configSet c k v) with
+    | none => simp [h1] at h
+    | some c1 =>
+      simp only [h1] at h
+      refine ih c1 h ?_
+      cases cli
+      · exact heurOK_configSet c c1 k v h1 hi
+      · exact heurOK_configSetCli c c1 k v h1 hi
+
+/-- Among pairs with distinct keys at most one has the key `max_width`, so two orders of the same
+pairs have the same `max_width` part. -/
+theorem filter_max_width_eq (l1 l2 : List (String × Val)) (hp : l1.Perm l2)
+    (hnd : (l1.map (·.1)).Nodup) :
+    l1.filter (fun kv => kv.1 == "max_width") = l2.filter (fun kv => kv.1 == "max_width") := by
+  have hpf := hp.filter (fun kv => kv.1 == "max_width")
+  have hn : ((l1.filter (fun kv => kv.1 == "max_width")).map (·.1)).Nodup :=
+    (List.filter_sublist.map _).nodup hnd
+  have hall : ∀ kv ∈ l1.filter (fun kv => kv.1 == "max_width"), kv.1 = "max_width" := by
+    intro kv hkv
+    have := (List.mem_filter.1 hkv).2
+    simpa using this
+  cases hm : l1.filter (fun kv => kv.1 == "max_width") with
+  | nil =>
+    rw [hm] at hpf
+    exact (List.nil_perm.1 hpf).symm ▸ rfl
+  | cons a r =>
+    cases r with
+    | nil =>
+      rw [hm] at hpf
+      exact (List.singleton_perm.1 hpf).symm ▸ rfl
+    | cons b r' =>
+      exfalso
+      rw [hm] at hn hall
+      have ha := hall a (by simp)
+      have hb := hall b (by simp)
+      simp only [List.map_cons, List.nodup_cons, List.mem_cons, not_or] at hn
+      exact hn.1.1 (ha.trans hb.symm)
+
+end RF.Lemmas.Config
+
+/-! ## Printing and loading the printed text -/
+
+namespace RF.Lemmas.Config
+open RF.Config RF.Gen.Options
+
+theorem lookup_filter_key {β} (l : List (String × β)) (p : String → Bool) (k : String) :
+    (l.filter fun kv => p kv.1).lookup k = if p k then l.lookup k else none := by
+  induction l with
+  | nil => simp
+  | cons a r ih =>
+    obtain ⟨k0, b⟩ := a
+    by_cases hk : k = k0
+    · subst hk
+      by_cases hp : p k = true
+      · simp [List.filter, hp]
+      · have hp' : p k = false := by simpa using hp
+        simp only [List.filter, hp', ih, Bool.false_eq_true, if_false]
+    · have hb : (k == k0) = false := by simpa using hk
+      by_cases hp0 : p k0 = true
+      · simp only [List.filter, hp0, List.lookup_cons, hb, ih]
+      · have hp0' : p k0 = false := by simpa using hp0
+        simp only [List.filter, hp0', List.lookup_cons, hb, ih]
+
+theorem lookup_some_of_mem_keys (c : Config) (k : String) (h : k ∈ c.map (·.1)) :
+    c.lookup k = some (getE c k) := by
+  induction c with
+  | nil => cases h
+  | cons a r ih =>
+    obtain ⟨k0, e⟩ := a
+    rw [getE_cons]
+    simp only [List.lookup_cons]
+    by_cases hk : k = k0
+    · subst hk; simp
+    · have hb : (k == k0) = false := by simpa using hk
+      simp only [hb, hk, if_false]
+      simp only [List.map_cons, List.mem_cons, hk, false_or] at h
+      exact ih h
+
+/-- What `to_toml` prints for an option: its value, unless it is on the hidden list. -/
+theorem lookup_printed (c : Config) (hkeys : c.map (·.1) = optionNames) (k : String)
+    (hk : k ∈ optionNames) :
+    ((allOptions c).filter fun kv => !tomlHidden.contains kv.1).lookup k =
+      if tomlHidden.contains k then none else some (getE c k).val := by
+  rw [lookup_filter_key (allOptions c) (fun k => !tomlHidden.contains k) k]
+  unfold allOptions
+  rw [lookup_map_snd c (fun o => o.2.val) k, lookup_some_of_mem_keys c k (hkeys ▸ hk)]
+  cases tomlHidden.contains k <;> rfl
+
+theorem lookup_of_mem_nodup {β} (l : List (String × β)) (k : String) (b : β) (h : (k, b) ∈ l)
+    (hnd : (l.map (·.1)).Nodup) : l.lookup k = some b := by
+  induction l with
+  | nil => cases h
+  | cons a r ih =>
+    obtain ⟨k0, b0⟩ := a
+    simp only [List.map_cons, List.nodup_cons] at hnd
+    rcases List.mem_cons.1 h with heq | hr
+    · cases heq; simp
+    · have hne : k ≠ k0 := fun e => hnd.1 (e ▸ List.mem_map.2 ⟨(k, b), hr, rfl⟩)
+      have hb : (k == k0) = false := by simpa using hne
+      simp only [List.lookup_cons, hb]
+      exact ih hr hnd.2
+
+theorem toToml_some (c : Config) (l : List (String × Val)) (h : toToml c = some l) :
+    l = (allOptions c).filter fun kv => !tomlHidden.contains kv.1 := by
+  unfold toToml at h
+  simp only at h
+  split at h
+  · cases h; rfl
+  · cases h
+
+theorem isStable_nightly (k : String) (v : Val) : isStableOptionAndValue ⟨true⟩ k v = true := by
+  unfold isStableOptionAndValue
+  cases stableOf k <;> cases variantStable k v <;> rfl
+
+/-- Print, then load: every printed option comes back with its value, provided every width is at most
+`max_width` (no F8b) and the printed values are well-typed. -/
+theorem roundTrip_values (c : Config) (l : List (String × Val))
+    (hkeys : c.map (·.1) = optionNames) (hprint : toToml c = some l)
+    (htyped : validParsed l = true)
+    (hwidth : ∀ w ∈ widthKeys, natOf c w ≤ natOf c "max_width") :
+    ∃ c2, roundTrip ⟨true⟩ c = some c2 ∧
+      ∀ k ∈ optionNames, tomlHidden.contains k = false → (getE c2 k).val = (getE c k).val := by
+  have hl := toToml_some c l hprint
+  have hlook : ∀ k ∈ optionNames, l.lookup k =
+      if tomlHidden.contains k then none else some (getE c k).val := by
+    intro k hk; rw [hl]; exact lookup_printed c hkeys k hk
+  refine ⟨toParsedConfig ⟨true⟩ l none none none, by simp [roundTrip, hprint, fromToml, htyped], ?_⟩
+  intro k hk hnh
+  unfold toParsedConfig
+  rw [defaultForPossible_eq]
+  generalize chosenStyleEdition _ _ _ = se
+  unfold fillFromParsedConfig setVersion
+  simp only
+  -- the hidden aliases are not in the text, so the alias setters do nothing
+  have hws : ∀ a, a ∈ optionNames → tomlHidden.contains a = true →
+      wasSet (setHeuristics (optionNames.foldl (fillStore ⟨true⟩ l) (defaultWithStyleEdition se))) a
+        = false := by
+    intro a ha hh
+    rw [wasSet_setHeuristics]
+    unfold wasSet
+    rw [getE_fillFold_nightly _ l a ha, hlook a ha, hh]
+    simp only [if_true]
+    exact wasSet_default se a
+  have m1 : "merge_imports" ∈ optionNames ∧ "fn_args_layout" ∈ optionNames ∧
+      "hide_parse_errors" ∈ optionNames := by decide +kernel
+  have h1 : tomlHidden.contains "merge_imports" = true ∧ tomlHidden.contains "fn_args_layout" = true ∧
+      tomlHidden.contains "hide_parse_errors" = true := by decide
+  rw [setMergeImports_eq, setAlias_of_not_set _ _ _ _ (hws _ m1.1 h1.1),
+    setFnArgsLayout_eq, setAlias_of_not_set _ _ _ _ (hws _ m1.2.1 h1.2.1),
+    setHideParseErrors_eq, setAlias_of_not_set _ _ _ _ (hws _ m1.2.2 h1.2.2)]
+  -- the store loop puts the printed value back, `set_heuristics` keeps it
+  have hfill : ∀ k' ∈ optionNames, tomlHidden.contains k' = false →
+      getE (optionNames.foldl (fillStore ⟨true⟩ l) (defaultWithStyleEdition se)) k' =
+        storeFn true false (getE c k').val (getE (defaultWithStyleEdition se) k') := by
+    intro k' hk' hh
+    rw [getE_fillFold_nightly _ l k' hk', hlook k' hk', hh]
+    simp
+  rw [getE_setHeuristics]
+  by_cases hw : k ∈ widthKeys
+  · -- a width: it was set, so it is clamped against max_width, which it does not exceed
+    have hmwm : "max_width" ∈ optionNames ∧ tomlHidden.contains "max_width" = false := by
+      decide +kernel
+    have hcv : checkVal k (getE c k).val = true :=
+      checkVal_of_validParsed l htyped k _ (by rw [hlook k hk, hnh]; simp) hk
+    have htag : tagOf k = some .nat := by
+      have : ∀ w ∈ widthKeys, tagOf w = some .nat := by decide +kernel
+      exact this k hw
+    obtain ⟨n, hn⟩ : ∃ n, (getE c k).val = .nat n := by
+      unfold checkVal at hcv
+      rw [htag] at hcv
+      cases hv : (getE c k).val with
+      | nat n => exact ⟨n, rfl⟩
+      | bool b => rw [hv] at hcv; simp at hcv
+      | str s => rw [hv] at hcv; simp at hcv
+    rw [hfill k hk hnh, hfill "max_width" hmwm.1 hmwm.2]
+    unfold heurEntry
+    cases heurOf _ _ with
+    | none => simp [storeFn]
+    | some h =>
+      simp only
+      obtain ⟨hv, hlk⟩ := lookup_toList_some h k hw
+      rw [hlk]
+      have hle : n ≤ (getE c "max_width").val.toNat := by
+        have h0 := hwidth k hw
+        unfold natOf at h0
+        rw [hn] at h0
+        exact h0
+      simp only [widthEntry, storeFn, Bool.or_true, hn]
+      have e : (Val.nat n).toNat = n := rfl
+      rw [e]
+      unfold getWidthValue
+      simp only [Bool.not_true, Bool.false_eq_true, if_false]
+      generalize (getE c "max_width").val.toNat = mw at hle
+      have hgt : ¬ n > mw := by omega
+      rw [if_neg hgt]
+  · rw [heurEntry_of_not_width _ _ _ _ hw, hfill k hk hnh]
+    simp [storeFn]
 
 end RF.Lemmas.Config
